@@ -11,6 +11,7 @@ through extraction with the implementation on grammar-generated programs:
      ast.dump(parse(re-emitted)) == ast.dump(original).
 """
 import ast
+import re
 import symtable
 
 from harness import common
@@ -44,8 +45,11 @@ def gen_block(rng):
             if q[0] in inner:
                 q = "'''" if q == '"""' else '"""'
             lines.append("%s = %s%s%s" % (var(), q, inner, q))
-        elif r < 0.55:
+        elif r < 0.52:
             lines.append("%s = 1 + \\\n      2" % var())
+        elif r < 0.55:
+            # an ordinary string that holds a '#' and is continued with a backslash: the next line is string content
+            lines.append("%s = 'issue #%%d: \\\n     see the tracker' %% 7" % var())
         elif r < 0.62:
             lines.append("# a comment with 'quote and \"\"\" triple")
         elif r < 0.65:
@@ -157,7 +161,12 @@ def gen_stmts(rng, depth, n=None):
             while e[0] != "L":
                 e = gen_expr_s(rng, 2)
             _, ps, ds, _body = e
-            out.append(("D", rng.randrange(len(NAMES)), ps, ds, gen_stmts(rng, depth - 1)))
+            fname = rng.randrange(len(NAMES))
+            fbody = gen_stmts(rng, depth - 1)
+            if rng.random() < 0.3:
+                # a function that refers to itself (recursion): its own name is bound by the scope that holds the def
+                fbody.insert(rng.randint(0, len(fbody)), ("E", ("O", [("N", fname), ("K",)])))
+            out.append(("D", fname, ps, ds, fbody))
         else:
             out.append(("T", gen_stmts(rng, depth - 1, 1), ("N", rng.randrange(len(NAMES))) if rng.random() < 0.7 else None,
                         rng.randrange(len(NAMES)) if rng.random() < 0.6 else None, gen_stmts(rng, depth - 1, 1)))
@@ -185,7 +194,7 @@ def expr_src(e):
     if k == "N":
         return NAMES[e[1]]
     if k == "K":
-        return "0"
+        return "[]"          # (not a literal the compiler folds: `if 0` would remove what it guards from the code object)
     if k == "O":
         return "(" + " + ".join(expr_src(x) for x in e[1]) + ")"
     if k == "L":
@@ -277,19 +286,21 @@ def stmts_tok(sts):
 
 
 def symtable_needs(src):
-    """names the block, run as a function body, takes from outside (implicit globals in any scope)"""
+    """names the block, run as a function body, takes from outside: what CPython's compiler loads as a global in any of the code
+    objects of the block (the compiler's own decision; symtable alone reports the variables of inlined comprehensions as locals of
+    the enclosing function)"""
+    import dis
     wrapped = "def __blk():\n" + "\n".join("    " + line for line in src.split("\n")) + "\n"
-    top = symtable.symtable(wrapped, "<blk>", "exec")
     need = set()
 
-    def walk(t):
-        for s in t.get_symbols():
-            if s.is_global() and s.is_referenced() and s.get_name() in NAMES:
-                need.add(s.get_name())
-        for c in t.get_children():
-            walk(c)
-    for c in top.get_children():
-        walk(c)
+    def walk(co):
+        for ins in dis.get_instructions(co):
+            if ins.opname in ("LOAD_GLOBAL", "LOAD_NAME") and ins.argval in NAMES:
+                need.add(ins.argval)
+        for c in co.co_consts:
+            if hasattr(c, "co_code"):
+                walk(c)
+    walk(compile(wrapped, "<blk>", "exec"))
     return need
 
 
@@ -308,7 +319,7 @@ def gen_pyexpr(rng, depth, simple=False):
         k = rng.random()
         if k < 0.5:
             return ast.Name(id=rng.choice(["x", "y", "foo", "_z"]), ctx=L)
-        return ast.Constant(value=rng.choice([0, 1, 42, "s", "it's", 'q"q', 2.5, None, True, b"by", -3, "é"]))
+        return ast.Constant(value=rng.choice([0, 1, 42, "s", "it's", 'q"q', 2.5, None, True, b"by", -3, "é", float("inf"), 2j, "inf", complex(0, float("inf"))]))
     g = lambda: gen_pyexpr(rng, depth - 1, simple)  # noqa
     if r < 0.34:
         return ast.BinOp(left=g(), op=rng.choice(BINOPS[:11] if simple else BINOPS)(), right=g())
@@ -379,7 +390,7 @@ def pexpr_tok(n):
     if isinstance(n, ast.Name):
         return "n " + s_tok(n.id)
     if isinstance(n, ast.Constant):
-        return "c %s %d" % (s_tok(repr(n.value)), 1 if isinstance(n.value, (int, float)) else 0)
+        return "c %s %d" % (s_tok(repr(n.value)), 1 if isinstance(n.value, (int, float)) else 2 if isinstance(n.value, complex) else 0)
     if isinstance(n, ast.NamedExpr):
         return "named %s %s" % (pexpr_tok(n.target), pexpr_tok(n.value))
     if isinstance(n, ast.Attribute):
@@ -450,7 +461,7 @@ def run(ctx):
         req.append("adjust|" + enc(text))
         cases.append((text, got))
         weak = "\"#\" + '''" in src
-        cweak = any(__import__("re").search(r"#.*\\$", ln) for ln in src.split("\n"))
+        cweak = any(("# the directory is" in ln or "# ends with" in ln) and ln.endswith("\\") for ln in src.split("\n"))
         # line count
         if got.count("\n") != text.count("\n"):
             ctx.violation({"block": text, "adjusted": got}, "re-margining changed the number of lines", tags=["c19.margin.lines"])
@@ -485,7 +496,7 @@ def run(ctx):
         req2.append("flush|%d|%s" % (level, enc(got)))
         cases2.append((got, level, out))
         weak = "\"#\" + '''" in text
-        cweak = any(__import__("re").search(r"#.*\\$", ln) for ln in text.split("\n"))
+        cweak = any(("# the directory is" in ln or "# ends with" in ln) and ln.endswith("\\") for ln in text.split("\n"))
         # the printer's own detector counts triple-quote tokens wherever they stand: one inside a comment flips its state
         pweak = any(ln.lstrip().startswith("#") and ('\"\"\"' in ln or "'''" in ln) for ln in text.split("\n"))
         # end to end: the block inside a template at that nesting level binds the same values as the block as written
@@ -525,6 +536,64 @@ def run(ctx):
             if dec(m) != got:
                 disagreements.append(("adjust_whitespace", text, dec(m), got))
 
+    # ---- (d) signatures: defaults stay with their parameters ---------------------------------------
+    # <%def>, <%block args> and <%page args> signatures are re-emitted from their parsed form: which default belongs to which
+    # parameter, and the kind of every parameter, must be those of the same signature on a plain Python function
+    import inspect
+    nsig = 120 if tier == "quick" else 6000
+    sig_kinds = {}
+    for _ in range(nsig):
+        names_ = ["p%d" % i_ for i_ in range(8)]
+        rng.shuffle(names_)
+        npos = rng.randint(0, 3)
+        pos = []
+        started = False
+        for i_ in range(npos):
+            started = started or rng.random() < 0.4
+            pos.append(names_.pop() + ("=%d" % rng.randint(1, 9) if started else ""))
+        parts = list(pos)
+        star = rng.random() < 0.6
+        kwo = []
+        if star:
+            parts.append("*" + names_.pop())
+            for i_ in range(rng.randint(0, 3)):
+                kwo.append(names_.pop() + ("=%d" % rng.randint(1, 9) if rng.random() < 0.5 else ""))
+            parts += kwo
+        if rng.random() < 0.3:
+            parts.append("**" + names_.pop())
+        sig = ", ".join(parts)
+        shape = "pos%d%s kwonly:%s" % (npos, "*" if star else "", "".join("d" if "=" in k_ else "r" for k_ in kwo))
+        sig_kinds[shape] = sig_kinds.get(shape, 0) + 1
+        ctx.evaluations += 1
+        ctx.nontrivial.add(("signature", sig))
+        g_ = {}
+        exec("def f(%s): pass" % sig, g_)
+        want = [(p_.name, p_.kind.name, p_.default if p_.default is not inspect.Parameter.empty else "-") for p_ in inspect.signature(g_["f"]).parameters.values()]
+        for place in ("def", "nested-def", "page"):
+            try:
+                if place == "def":
+                    fn_ = Template('<%%def name="f(%s)">x</%%def>' % sig).module.render_f
+                    have = [(p_.name, p_.kind.name, p_.default if p_.default is not inspect.Parameter.empty else "-") for p_ in list(inspect.signature(fn_).parameters.values())[1:]]
+                elif place == "nested-def":
+                    code_ = Template('<%%def name="o()"><%%def name="f(%s)">x</%%def></%%def>' % sig).code
+                    m_ = re.search(r"^\s*def f\((.*)\):$", code_, re.M)
+                    g2 = {}
+                    exec("def f(%s): pass" % m_.group(1), g2)
+                    have = [(p_.name, p_.kind.name, p_.default if p_.default is not inspect.Parameter.empty else "-") for p_ in inspect.signature(g2["f"]).parameters.values()]
+                else:
+                    if "**" in sig:
+                        continue
+                    fn_ = Template('<%%page args="%s"/>x' % sig).module.render_body
+                    have = [(p_.name, p_.kind.name, p_.default if p_.default is not inspect.Parameter.empty else "-") for p_ in list(inspect.signature(fn_).parameters.values())[1:]
+                            if p_.name != "pageargs"]
+            except Exception as e:  # noqa
+                have = "raised %s: %s" % (type(e).__name__, str(e)[:100])
+            if have != want:
+                ctx.violation({"signature": sig, "written_in": place, "generated_parameters": repr(have), "python_parameters": repr(want)},
+                              "a re-emitted signature gives a parameter another default or another kind than the signature as written", tags=["c19.signature"])
+                break
+    ctx.generators["signatures"] = {"cases": nsig, "shapes": len(sig_kinds)}
+
     # ---- (b) scope -------------------------------------------------------------------------------
     ns = 3000 if tier == "quick" else 300000
     req, cases = [], []
@@ -550,7 +619,11 @@ def run(ctx):
         # block declares (write_variable_declares)
         effective = (undecl - decl) & set(NAMES)
         missing = sorted(need - effective)
-        spurious = sorted(effective - need)
+        # CPython 3.12 compiles comprehensions inside functions inline; a name that is an iteration variable of one such
+        # comprehension and is read from another place of the same function is then treated by the compiler as that function's
+        # local (UnboundLocalError at run time) although the language gives the read the enclosing / global binding: for those
+        # names the compiler's answer is no statement about the language, and they are left out of the "spurious" side
+        spurious = sorted((effective - need) - _comp_targets_in_functions(src))
         case = {"code": src, "undeclared": sorted(undecl), "declared": sorted(decl), "needed_from_namespace": sorted(need)}
         if missing:
             ctx.violation(dict(case, missing=missing), "a name the code reads without binding it is not obtained from the template's namespace",
@@ -653,6 +726,24 @@ def run(ctx):
     )
 
 
+def _comp_targets_in_functions(src):
+    out = set()
+
+    def walk(n, in_fn):
+        if isinstance(n, (ast.ListComp, ast.SetComp, ast.GeneratorExp, ast.DictComp)) and in_fn:
+            for g in n.generators:
+                for m in ast.walk(g.target):
+                    if isinstance(m, ast.Name):
+                        out.add(m.id)
+        for c in ast.iter_child_nodes(n):
+            walk(c, in_fn or isinstance(n, (ast.FunctionDef, ast.Lambda)))
+    try:
+        walk(ast.parse(src), False)
+    except SyntaxError:
+        pass
+    return out
+
+
 def _has_toplevel_comp(src):
     def walk(n, in_fn):
         if isinstance(n, (ast.ListComp, ast.SetComp, ast.GeneratorExp, ast.DictComp)) and not in_fn:
@@ -689,19 +780,74 @@ def _scope_tag(src, names, kind):
     walk(t, False)
     if kind == "missing":
         return "c19.scope.missing.toplevel-comp-target" if all(x in toplevel_comp_targets for x in names) else "c19.scope.missing"
-    # spurious: a local of a nested function (assignment, for target, import, except-as, nested def) read before it is bound
-    wrapped = "def __blk():\n" + "\n".join("    " + line for line in src.split("\n")) + "\n"
-    nested_locals = set()
+    # spurious: the one known cause is flow-insensitivity -- a local of a nested function that is read (in that function or in
+    # anything nested in it) at a place that textually precedes the statement that binds it.  A read that comes after the binding
+    # statement has begun (a function calling itself, a later use) is not an instance of it.
+    flow = set()
 
-    def tables(tb, depth):
-        for c in tb.get_children():
-            if depth >= 1 and c.get_type() == "function":
-                for sy in c.get_symbols():
-                    if sy.is_local() and not sy.is_parameter():
-                        nested_locals.add(sy.get_name())
-            tables(c, depth + 1)
-    tables(symtable.symtable(wrapped, "<blk>", "exec"), 0)
-    return "c19.scope.spurious.unbound-local" if all(x in nested_locals for x in names) else "c19.scope.spurious"
+    def bind_positions(fn):
+        """name -> earliest position at which a statement of fn's own body (not of nested functions) has bound it"""
+        out = {}
+
+        def note(name, pos):
+            if name not in out or pos < out[name]:
+                out[name] = pos
+
+        def targets(tnode, pos):
+            for m in ast.walk(tnode):
+                if isinstance(m, ast.Name) and isinstance(m.ctx, ast.Store):
+                    note(m.id, pos)
+
+        def stmts(body):
+            for st in body:
+                end = (st.end_lineno, st.end_col_offset)
+                if isinstance(st, (ast.FunctionDef, ast.ClassDef)):
+                    note(st.name, (st.lineno, st.col_offset))
+                    continue
+                if isinstance(st, ast.Assign):
+                    for tg in st.targets:
+                        targets(tg, end)
+                elif isinstance(st, (ast.AugAssign, ast.AnnAssign)):
+                    targets(st.target, end)
+                elif isinstance(st, (ast.Import, ast.ImportFrom)):
+                    for al in st.names:
+                        note((al.asname or al.name).split(".")[0], end)
+                elif isinstance(st, (ast.For, ast.AsyncFor)):
+                    targets(st.target, (st.iter.end_lineno, st.iter.end_col_offset))
+                    stmts(st.body)
+                    stmts(st.orelse)
+                elif isinstance(st, (ast.If, ast.While)):
+                    stmts(st.body)
+                    stmts(st.orelse)
+                elif isinstance(st, ast.With):
+                    for it in st.items:
+                        if it.optional_vars is not None:
+                            targets(it.optional_vars, (it.context_expr.end_lineno, it.context_expr.end_col_offset))
+                    stmts(st.body)
+                elif isinstance(st, ast.Try):
+                    stmts(st.body)
+                    for h in st.handlers:
+                        if h.name:
+                            note(h.name, (h.lineno, h.col_offset))
+                        stmts(h.body)
+                    stmts(st.orelse)
+                    stmts(st.finalbody)
+        stmts(fn.body)
+        return out
+
+    def visit_fn(fn):
+        binds = bind_positions(fn)
+        for m in ast.walk(fn):
+            if isinstance(m, ast.Name) and isinstance(m.ctx, ast.Load) and m.id in binds and (m.lineno, m.col_offset) < binds[m.id]:
+                flow.add(m.id)
+        for m in ast.walk(fn):
+            if isinstance(m, ast.FunctionDef) and m is not fn:
+                visit_fn(m)
+    for top in t.body:
+        for m in ast.walk(top):
+            if isinstance(m, ast.FunctionDef):
+                visit_fn(m)
+    return "c19.scope.spurious.unbound-local" if all(x in flow for x in names) else "c19.scope.spurious"
 
 
 def _expr_tag(node):
